@@ -3,9 +3,13 @@
 //!
 //! usage: oq3v check <ID> [--tier quick|thorough] [--replay FILE]
 
+mod c11;
 mod c19;
 mod c20;
 mod engine;
+mod lexgen;
+mod lexprops;
+mod pipeline;
 mod textgen;
 mod textprops;
 
@@ -17,6 +21,8 @@ fn run_property(id: &str, ctx: &RunCtx) -> bool {
         "C01" => textprops::run(textprops::P::C01, ctx),
         "C02" => textprops::run(textprops::P::C02, ctx),
         "C14" => textprops::run(textprops::P::C14, ctx),
+        "C11" => c11::run(ctx),
+        "C15" => lexprops::run_c15(ctx),
         "C19" => c19::run(ctx),
         "C20" => c20::run(ctx),
         _ => return false,
@@ -42,6 +48,8 @@ fn replay_input(id: &str, v: &Value) -> Result<Vec<Failure>, String> {
             Ok(c19::replay_ops(&ops))
         }
         "C20" => c20::replay_types(v),
+        "C15" => lexprops::replay_c15(v),
+        "C11" => c11::replay(v),
         _ => Err(format!("no replay for {id}")),
     }
 }
